@@ -100,8 +100,10 @@ def gen_history(rng, nops, acct):
             op = "ru"
         elif k < 0.96 or not acct:
             op = "w" if k < 0.985 else "reset"
-        elif k < 0.975:
+        elif k < 0.97:
             op = "c"  # residency probe through the public Cache.contains(): not an access
+        elif k < 0.978:
+            op = "v"  # the memory view of the UI (wordwise_repr of the memory system): not an access either
         elif k < 0.985:
             op = "p"  # parser-style preload (direct write to lower memory) in the middle of a history
         else:
@@ -153,6 +155,18 @@ def view_of(cr):
     return [[int(b.tag, 16) if b.valid_bit == "1" else None for b in s.blocks] for s in cr.sets]
 
 
+def lru_age_mismatch(cr, pols):
+    """'reports block ages consistent with that order': the ages shown for every set in the public cache
+    representation must induce the order (oldest first) of the reference LRU fed the observed events; None if fine"""
+    for sidx, (s_, pol) in enumerate(zip(cr.sets, pols)):
+        rp = list(s_.replacement_status)
+        n = len(rp)
+        rk = pol.ranks()
+        if len(set(rp)) != n or sorted(range(n), key=lambda b: rp[b]) != sorted(range(n), key=lambda b: rk[b]):
+            return "set %d: reported LRU ages %r induce order %r, the observed access history gives (oldest first) %r" % (sidx, rp, sorted(range(n), key=lambda b: rp[b]), sorted(range(n), key=lambda b: rk[b]))
+    return None
+
+
 class PolicyObserver:
     """C10 at the set level, driven by observation only: fed the resident tags (public cache representation) before
     and after each access together with the accessed address, it infers 'hit on way w' or 'fill of way d', tells a
@@ -170,10 +184,24 @@ class PolicyObserver:
         blk = (addr & M32) >> (2 + self.bb)
         return blk & ((1 << self.ib) - 1), blk >> self.ib
 
-    def observe(self, tags, addr):
+    def observe(self, tags, addr, cr=None):
         """returns None or (kind, message)"""
+        r = self._observe(tags, addr)
+        if r is None and cr is not None and self.policy == "lru" and not self.blind:
+            self.age_checks += 1
+            m_ = lru_age_mismatch(cr, self.pols)
+            if m_:
+                return ("lru-age-order", m_)
+        return r
+
+    blind = False
+    age_checks = 0
+
+    def _observe(self, tags, addr):
         prev, self.prev = self.prev, tags
         if addr is None:
+            if prev != tags:
+                self.blind = True  # something changed the sets that this observer was not told about
             return None
         idx, tag = self.split(addr)
         before, after = prev[idx], tags[idx]
@@ -252,7 +280,7 @@ class HistMonitor:
         if self.pols is not None and not self._events_done and not (self.dead and self.res.prop == "C10"):
             if op == "reset":
                 pass  # policies were re-created right after the reset (before the read-back)
-            elif op in ("p", "c"):
+            elif op in ("p", "c", "v"):
                 # a preload bypasses the cache / a residency probe is not an access: no event; tags must not change
                 prev = self.tags_prev
                 self.policy_events("preload", None)
@@ -288,6 +316,19 @@ class HistMonitor:
                     self.fail("C03", "reset-keeps-blocks", "%s: a block is still valid after reset()" % where)
                 return
             self.readback(where)
+            return
+        if op == "v":
+            before_ = resident_view(m)
+            try:
+                m.wordwise_repr()
+            except Exception as e:
+                self.fail("C09", "view-error", "%s: wordwise_repr() raised %r" % (where, e), fatal=False)
+                return
+            res.count("memory_views_mid_history")
+            if resident_view(m) != before_:
+                self.fail("C09", "view-changed-cache", "%s: asking for the memory view changed the resident blocks (an inspection is not an access; later hits/misses no longer match the access history)" % where, fatal=False)
+            if self.acct:
+                self.counters(where)
             return
         if op == "c":
             from architecture_simulator.uarch.memory.decoded_address import DecodedAddress
@@ -428,6 +469,7 @@ class HistMonitor:
         if not changed:
             if tag in after:
                 pol.access(after.index(tag))
+            self.lru_ages(where)
             return
         if len(changed) == 1 and after[changed[0]] == tag:
             self.res.count("fills_observed")
@@ -438,8 +480,16 @@ class HistMonitor:
                 self.fail("C10", "displaced-way", "%s: the fill displaced way %d (tags %r -> %r), the %s policy's victim for the observed access history of this set is way %d" % (where, d, before, after, self.cfg["policy"], v))
                 return
             pol.access(d)
+            self.lru_ages(where)
             return
         self.fail("C03", "anomalous-set-update", "%s: set %d changed from %r to %r" % (where, idx, before, after), fatal=False)
+
+    def lru_ages(self, where):
+        if self.cfg["policy"] == "lru":
+            self.res.count("reported_lru_age_checks")
+            m_ = lru_age_mismatch(self.m.cache_repr(), self.pols)
+            if m_:
+                self.fail("C10", "lru-age-order", "%s: %s" % (where, m_))
 
     def reset_policies(self):
         from ..refmodels.policies import make_policy
